@@ -203,6 +203,10 @@ func (w *Worker) runPath(prefix []Decision) {
 		reached: map[string]bool{}, inputMeta: map[string]InputMeta{}, strInputs: map[string][]*Term{},
 		fnsSeen: map[*ssa.Function]bool{}, modelsHit: map[string]bool{}}
 	r.env = newEnv(r)
+	r.raceOn = ex.B.Params["race"] == 1
+	r.objVC = map[interface{}]VC{}
+	r.watch = map[*Value]*watchCell{}
+	r.raceSeen = map[string]bool{}
 	w.solver.Push()
 	r.execute(ex.Entry)
 	if r.outcome == OutOK && ex.WitnessEvery > 0 && ex.wantWitness() {
